@@ -1,6 +1,7 @@
 #!/bin/sh
 # runs every registered quick check for a few seeds; prints one line per run (used to look for false alarms / slow runs)
 cd "$(dirname "$0")/.." || exit 2
+mkdir -p work evidence replays
 for seed in ${SEEDS:-1 2 3}; do
   for id in $(/venv/bin/python -c "import json;print(' '.join(c['property_id'] for c in json.load(open('MANIFEST.json'))['checks']))"); do
     s=$(date +%s)
